@@ -187,9 +187,13 @@ fn gen_history(rng: &mut StdRng, nops: usize, delete_all: bool, avoid_f0: bool, 
                 ops.push(json!({"op":"merge"}));
             }
         } else if x < 94 || (two && x < 97) {
-            ops.push(json!({"op":"drop_writer"}));
             if two && rng.random_bool(0.7) {
+                // the writer moves to the other instance once its merges are over (a merge thread that outlives
+                // its writer keeps rewriting .managed.json from ITS instance's list: see DESIGN 12.4, observations)
+                ops.push(json!({"op":"wait_merges"}));
                 ops.push(json!({"op":"switch_index"}));
+            } else {
+                ops.push(json!({"op":"drop_writer"}));
             }
             open = false;
         } else if x < 96 {
